@@ -220,8 +220,8 @@ fn emit_mut<T: Doc>(out: &mut Out, doc: &J, labels: &[&str]) {
 
 /// One evolution: model sets T1..Tn; after each step the plan is computed, filled the way
 /// `revision` fills it, stamped (id / comment / created_at as cmd_revision does) and "written".
-fn emit_evolution(out: &mut Out, rng: &mut Rng, evo: &[Vec<TableDef>], tag: &str, evo_id: usize) {
-    let mut history: Vec<MigrationPlan> = vec![];
+fn emit_evolution(out: &mut Out, rng: &mut Rng, evo: &[Vec<TableDef>], tag: &str, evo_id: usize, history0: Vec<MigrationPlan>) {
+    let mut history: Vec<MigrationPlan> = history0;
     for (si, models) in evo.iter().enumerate() {
         for t in models {
             emit_rt(out, t, tag);
@@ -334,8 +334,22 @@ fn main() {
                 let Ok(v) = serde_json::from_str::<Value>(&txt) else { continue };
                 let tag = format!("corpus:{}", f.file_name().unwrap().to_string_lossy());
                 if let Some(ms) = v.get("models").and_then(|m| serde_json::from_value::<Vec<Vec<TableDef>>>(m.clone()).ok()) {
-                    emit_evolution(&mut out, &mut rng, &ms, &tag, evo_id);
+                    emit_evolution(&mut out, &mut rng, &ms, &tag, evo_id, vec![]);
                     evo_id += 1;
+                }
+                // one revision step on top of a stored history (replay files)
+                if let (Some(now), Some(h)) = (
+                    v.get("models_now").and_then(|m| serde_json::from_value::<Vec<TableDef>>(m.clone()).ok()),
+                    v.get("history").and_then(|m| serde_json::from_value::<Vec<MigrationPlan>>(m.clone()).ok()),
+                ) {
+                    emit_evolution(&mut out, &mut rng, &[now], &tag, evo_id, h);
+                    evo_id += 1;
+                }
+                if let Some(t) = v.get("table_yaml").and_then(|m| m.as_str()).and_then(|y| serde_yaml::from_str::<TableDef>(y).ok()) {
+                    emit_rt(&mut out, &t, &tag);
+                }
+                if let Some(t) = v.get("config").and_then(|m| serde_json::from_value::<VespertideConfig>(m.clone()).ok()) {
+                    emit_rt(&mut out, &t, &tag);
                 }
                 if let Some(p) = v.get("plan").and_then(|m| serde_json::from_value::<MigrationPlan>(m.clone()).ok()) {
                     emit_rt(&mut out, &p, &tag);
@@ -362,7 +376,7 @@ fn main() {
     for _ in 0..n {
         let profile = if rng.chance(1, 2) { Profile::Engine } else { Profile::Loader };
         let evo = gener::gen_evolution(&mut rng, steps, profile, &mut rejected);
-        emit_evolution(&mut out, &mut rng, &evo, "evolution", evo_id);
+        emit_evolution(&mut out, &mut rng, &evo, "evolution", evo_id, vec![]);
         evo_id += 1;
     }
     emit_rt(&mut out, &VespertideConfig::default(), "wild");
